@@ -13,7 +13,8 @@ def install(eng):
     SAME = "dict_eq(self.hashes, old(self.hashes))"
 
     eng.contract("gwf.core:hash_spec", params={"spec": vc.SpecText}, returns=vc.Hash, returns_expr="Sha1(spec)",
-                 trusted=True, pure=True, note="hashlib.sha1(spec.encode()).hexdigest(): a function of the text")
+                 pure=True, serves=["C18", "C01"],
+                 note="Sha1 := hexdigest(sha1(utf8(text))) (library steps uninterpreted): the whole text is hashed")
 
     # ---- interface (what scheduling / plugins rely on); both implementations are verified against the same text
     IF_HAS = ["(result is not None) == Changed(self, target)"]
